@@ -889,6 +889,42 @@ func (r *Rig) Do(th int, op string) (res OpResult) {
 				break
 			}
 		}
+	case "alladv", "keysadv", "coldestadv", "hottestadv":
+		// an iteration whose consumer lets time pass: after the first element the clock advances by the given amount;
+		// the elements are reported in the order they were yielded (the first one was judged at the old clock value)
+		res.List = []int{}
+		advanced := false
+		tick := func() {
+			if advanced {
+				return
+			}
+			advanced = true
+			if d := atoi64(f[1]); d > 0 && r.Clock.now <= math.MaxInt64-d {
+				r.Clock.now += d
+			}
+		}
+		switch f[0] {
+		case "alladv":
+			for k := range c.All() {
+				res.List = append(res.List, k)
+				tick()
+			}
+		case "keysadv":
+			for k := range c.Keys() {
+				res.List = append(res.List, k)
+				tick()
+			}
+		default:
+			it := c.Coldest()
+			if f[0] == "hottestadv" {
+				it = c.Hottest()
+			}
+			for e := range it {
+				res.List = append(res.List, e.Key)
+				tick()
+			}
+		}
+		tick()
 	case "runexec":
 		res.Int = r.RunDeferred(arg(1, 0))
 	case "awaitload":
